@@ -5,8 +5,45 @@ import (
 	"bufio"
 	"encoding/json"
 	"os"
+	"reflect"
 	"sync"
 )
+
+// norm replaces nil slices (JSON null, which the TLA+ Json module cannot read) by empty ones.
+func norm(v any) any {
+	if v == nil {
+		return []int{}
+	}
+	rv := reflect.ValueOf(v)
+	switch rv.Kind() {
+	case reflect.Slice:
+		if rv.IsNil() || rv.Len() == 0 {
+			return []int{}
+		}
+		if rv.Type().Elem().Kind() == reflect.Int {
+			return v
+		}
+		out := make([]any, rv.Len())
+		for i := range out {
+			out[i] = norm(rv.Index(i).Interface())
+		}
+		return out
+	case reflect.Map:
+		if m, ok := v.(Ev); ok {
+			for k, x := range m {
+				m[k] = norm(x)
+			}
+			return m
+		}
+		if m, ok := v.(map[string]any); ok {
+			for k, x := range m {
+				m[k] = norm(x)
+			}
+			return m
+		}
+	}
+	return v
+}
 
 type Ev map[string]any
 
@@ -38,6 +75,7 @@ func (t *Writer) emitLocked(ev Ev) {
 	if _, ok := ev["tr"]; !ok {
 		ev["tr"] = t.tr
 	}
+	norm(ev)
 	b, err := json.Marshal(ev)
 	if err != nil {
 		t.err = err
